@@ -3,7 +3,7 @@ construction of REAL exactly_lib instruction objects / environments (the real si
 
 Tree description (used for fixtures, snapshots and the reference model alike):
 
-    node     ::= ('f', text) | ('d', {name: node}) | ('l', target)
+    node     ::= ('f', text) | ('b', bytes that are not UTF-8) | ('d', {name: node}) | ('l', target)
     children ::= {name: node}
 
 Nothing here models exactly_lib.  `MemFs` is a reference model of a POSIX directory tree
@@ -51,6 +51,9 @@ def materialize(children: dict, root: str):
         if node[0] == 'f':
             with open(p, 'w') as f:
                 f.write(node[1])
+        elif node[0] == 'b':
+            with open(p, 'wb') as f:
+                f.write(node[1])
         elif node[0] == 'd':
             os.mkdir(p)
             materialize(node[1], p)
@@ -68,8 +71,12 @@ def snapshot(root: str) -> dict:
         elif os.path.isdir(p):
             out[name] = ('d', snapshot(p))
         else:
-            with open(p) as f:
-                out[name] = ('f', f.read())
+            with open(p, 'rb') as f:
+                data = f.read()
+            try:
+                out[name] = ('f', data.decode('utf-8'))
+            except UnicodeDecodeError:
+                out[name] = ('b', data)
     return out
 
 
@@ -153,7 +160,7 @@ class MemFs:
 
     def is_file(self, parts) -> bool:
         n = self.lookup(parts, True)
-        return n is not None and n[0] == 'f'
+        return n is not None and n[0] in ('f', 'b')
 
     # -- modification (each raises RefHardError when the operation is impossible)
     def _dir_node_for_create(self, parts) -> Tuple[dict, str]:
@@ -215,7 +222,7 @@ class MemFs:
         node = self.lookup(parts, True)
         if node is None:
             raise RefHardError('broken link / missing in source')
-        if node[0] == 'f':
+        if node[0] in ('f', 'b'):
             return node
         return ('d', {name: self.deep_copy_following_links(list(parts) + [name], depth + 1)
                       for name in node[1]})
@@ -348,7 +355,7 @@ def ref_type_of(fs: MemFs, parts: List[str]) -> Dict[str, bool]:
     """file / dir follow links; symlink does not."""
     nofollow = fs.lookup(parts, False)
     follow = fs.lookup(parts, True)
-    return dict(file=follow is not None and follow[0] == 'f',
+    return dict(file=follow is not None and follow[0] in ('f', 'b'),
                 dir=follow is not None and follow[0] == 'd',
                 symlink=nofollow is not None and nofollow[0] == 'l')
 
